@@ -534,6 +534,13 @@ func (w *World) name(e ipfslog.Entry) string {
 	if n, ok := w.names[k]; ok {
 		return fmt.Sprintf("e%d", n)
 	}
+	// a hash-only entry (a resumed replication queue names what it has to fetch by hash) of a block that
+	// is not an entry of the scenario: nothing to declare
+	if c := e.GetClock(); c == nil {
+		return "e0"
+	} else if lc, ok := c.(*entry.LamportClock); ok && lc == nil {
+		return "e0"
+	}
 	n := len(w.entries) + 1
 	w.names[k] = n
 	w.entries = append(w.entries, e)
